@@ -212,7 +212,7 @@ func observe(text string, attr string, pr probe) (rank int, out string, ok bool)
 	if pr.val != nil {
 		data = pr.val()
 	}
-	r := tx.Run(text, map[string]interface{}{"V": data, "C": true, "NC": false, "L": []int{1}})
+	r := tx.Run(text, map[string]interface{}{"V": data, "C": true, "NC": false, "L": []int{1}, "L2": []int{1, 2}})
 	if r.Panic != nil || r.ParseErr != nil {
 		return 0, "", false
 	}
